@@ -201,6 +201,26 @@ def gen_cases(tier, seed):
     # bounded-exhaustive hierarchies (shape x explicit initials x source/target of an event per name)
     for k, d in enumerate(D.forest_exhaustive(step=(2 if tier == 'thorough' else 40))):
         cases.append({'id': f'forest{k}', 'stream': 'forest', 'feature': (k % 7 == 0), 'def': d})
+    # coinciding concatenations: state `X` with event `y_z` and state `XY` with event `z` (snake(X)_y_z = snake(XY)_z),
+    # likewise for PascalCase (`Xy` + `Zw` vs `XyZ` + `w`): any derived key built by joining two names collides
+    words = ['arm', 'hold', 'release', 'io', 'x2', 'ab', 'c']
+    kk = 0
+    for a_ in words:
+        for b_ in words:
+            for c_ in words:
+                if b_ == c_ or (len({a_, b_, c_}) < 3 and (kk % 3)):
+                    kk += 1
+                    continue
+                A, AB = a_.capitalize(), a_.capitalize() + b_.capitalize()
+                for asy, pay in ((False, False), (True, True)):
+                    cases.append({'id': f'concat{kk}.{int(asy)}', 'stream': 'concat', 'feature': (kk % 4 == 0), 'def':
+                                  [('name', 'M'), ('dynamic', True)] + ([('async', True)] if asy else []) +
+                                  [('initial', A), ('states', [('leaf', A, None), ('leaf', AB, ['u32']), ('leaf', 'Idle', None)]),
+                                   ('events', [(f'{b_}_{c_}', ([('payload', ['u32'])] if pay else []) +
+                                                [('transition', [('from', [A], False), ('to', AB)])]),
+                                               (c_, [('transition', [('from', [AB], False), ('to', 'Idle')]), ('after', ['log'], True)]),
+                                               (b_, [('transition', [('from', ['Idle'], False), ('to', A)])])], True)]})
+                kk += 1
     # every short event name over {a, B, 2, _}: the snake_case rule (validation.rs) and the derived names
     import itertools
     kk = 0
